@@ -227,9 +227,10 @@ fn main() {
     }
     // ---- set-like fields hold no entry twice, also when the queries of several blocks overlap (same party, a UTxO pinned
     // by reference that an address query matches as well, the same reference written twice): either the blocks get
-    // distinct UTxOs or resolution fails.  BOUND: 5 templates x stores of 1, 2 and 3 UTxOs of the sender.
+    // distinct UTxOs or resolution fails.  BOUND: 5 templates x stores of 1, 2, 3, 60 and 120 UTxOs of the sender.
     for name in ["pinned_and_by_address", "pinned_first", "two_queries_one_party", "pinned_twice", "collateral_and_reference_overlap"] {
-        for n_utxos in 1..=3u32 {
+        // (60 and 120: more candidates than the selection window of 50)
+        for n_utxos in [1u32, 2, 3, 60, 120] {
             cases += 1;
             let input = format!("tx={name} store={n_utxos} UTxO(s) of the sender (50000 ADA each, outputs #0..#{} of one transaction)", n_utxos - 1);
             let tx = lower(SRC, name);
@@ -261,6 +262,68 @@ fn main() {
                     witness("c10_pipeline/resolve_tx#no-duplicates", "compile_tx_body", format!("{input} class=one-utxo-listed-twice"), format!("{field} lists {}#{i} twice ({} entries)", hex::encode(&t[..4]), entries.len()), "a set: every UTxO at most once (or resolution fails)");
                 }
             }
+        }
+    }
+    // BOUND: 3 templates x 5 store sizes x 150 repetitions.
+    // ---- one pass (arguments, a fee, input resolution, compile - no fee loop, which on stores with many equal candidates does not
+    // settle) over stores LARGER than the selection window of 50: blocks whose queries overlap still get distinct UTxOs
+    for name in ["two_queries_one_party", "two_script_inputs", "three_script_inputs"] {
+        for n_utxos in [49u32, 50, 51, 60, 120] {
+            use tx3_tir::compile::Compiler as _;
+            cases += 1;
+            let input = format!("tx={name}, one pass, store={n_utxos} UTxOs of the sender (more candidates than the selection window when above 50)");
+            let args: BTreeMap<String, ArgValue> = BTreeMap::from([
+                ("quantity".to_string(), ArgValue::Int(3_000_000)),
+                ("sender".to_string(), ArgValue::Address(addr_bytes(SENDER))),
+                ("receiver".to_string(), ArgValue::Address(addr_bytes(RECEIVER))),
+            ]);
+            let store = FixedStore((0..n_utxos).map(|i| lovelace_utxo(SENDER, 50_000_000_000, i)).collect());
+            vf_pipeline::begin_case(input.clone());
+            let pass = || -> Result<Vec<u8>, String> {
+                let t = AnyTir::V1Beta0(lower(SRC, name));
+                let t = tx3_tir::reduce::apply_args(t, &args).map_err(|e| e.to_string())?;
+                let t = tx3_tir::reduce::apply_fees(t, 400_000).map_err(|e| e.to_string())?;
+                let t = tx3_tir::reduce::reduce(t).map_err(|e| e.to_string())?;
+                let t = pollster::block_on(tx3_resolver::inputs::resolve(t, &store)).map_err(|e| e.to_string())?;
+                let t = tx3_tir::reduce::reduce(t).map_err(|e| e.to_string())?;
+                let mut c = compiler(44, 155381, None);
+                c.compile(&t).map(|x| x.payload).map_err(|e| e.to_string())
+            };
+            // which of many equally good candidates a block gets is not determined: repeat
+            'rep: for rep in 0..150 {
+                let payload = match pass() { Ok(p) => p, Err(e) => { if rep == 0 { println!("VERIF-NOTE {input}: refused: {}", e.chars().take(80).collect::<String>()); } break; } };
+                let Ok(dec): Result<primitives::Tx, _> = tx3_cardano::pallas::codec::minicbor::decode(&payload) else { break; };
+                let mut seen = std::collections::BTreeSet::new();
+                for i in dec.transaction_body.inputs.iter() {
+                    if !seen.insert((i.transaction_id.to_vec(), i.index)) {
+                        witness("c10_pipeline/resolve_tx#no-duplicates", "compile_tx_body", format!("{input} (repetition {rep}) class=one-utxo-listed-twice"), format!("inputs list {}#{} twice ({} entries)", hex::encode(&i.transaction_id[..4]), i.index, dec.transaction_body.inputs.iter().count()), "a set: every UTxO at most once (or resolution fails)");
+                        break 'rep;
+                    }
+                }
+            }
+        }
+    }
+    // ---- the script-data hash digests the cost model of the protocol parameters THIS compilation was given: two compilers
+    // with different cost models in one process (the first must not leave its language view behind for the second)
+    for (round, fill) in [(0u32, 0i64), (1, 1), (2, 7), (3, 0)] {
+        cases += 1;
+        let input = format!("tx=mint_v3 compiled as number {round} in this process with a cost model filled with {fill}");
+        let tx = lower(SRC, "mint_v3");
+        let args: BTreeMap<String, ArgValue> = BTreeMap::from([
+            ("quantity".to_string(), ArgValue::Int(3_000_000)),
+            ("sender".to_string(), ArgValue::Address(addr_bytes(SENDER))),
+            ("receiver".to_string(), ArgValue::Address(addr_bytes(RECEIVER))),
+        ]);
+        let store = FixedStore(vec![lovelace_utxo(SENDER, 50_000_000_000, 0)]);
+        let mut c = compiler(44, 155381, None);
+        c.pparams.cost_models = std::collections::HashMap::from([(0u8, vec![fill; 166]), (1u8, vec![fill; 175]), (2u8, vec![fill; 251])]);
+        vf_pipeline::begin_case(input.clone());
+        let Ok(x) = pollster::block_on(tx3_resolver::resolve_tx(AnyTir::V1Beta0(tx), &args, &mut c, &store, 10)) else { continue; };
+        let Ok(dec): Result<primitives::Tx, _> = tx3_cardano::pallas::codec::minicbor::decode(&x.payload) else { continue; };
+        let lv = Some(primitives::LanguageView(2, vec![fill; 251]));
+        let expect = primitives::ScriptData::build_for(&dec.transaction_witness_set, &lv).map(|d| d.hash());
+        if expect != dec.transaction_body.script_data_hash {
+            witness("cardano_body/compute_script_data_hash#postcondition", "compute_script_data_hash", format!("{input} class=cost-model-of-an-earlier-compilation"), format!("script_data_hash={:?}", dec.transaction_body.script_data_hash.map(|h| hex::encode(h))), "the digest of the carried redeemers under the language view built from the cost model this compiler was configured with");
         }
     }
     // ---- C08 through the resolver: several script inputs whose queries overlap (same party) each guard their OWN UTxO: as many
